@@ -48,6 +48,7 @@ type Task struct {
 	stalled time.Time // not chosen before this simulated instant (stall fault)
 	delayed uint64    // not chosen before this decision number (site delay), unless nothing else can run
 	fn      func()
+	fid     uint64 // fingerprint identity (0 for adopted goroutines)
 }
 
 type Config struct {
@@ -152,9 +153,17 @@ func goid() uint64 {
 
 func newTaskLocked(name string) *Task {
 	t := &Task{id: len(tasks), name: name, wake: make(chan struct{}, 1), st: stRunnable}
+	if !strings.HasPrefix(name, "adopted#") {
+		// the fingerprint identity counts the simulator's own tasks only: whether a worker pool serves a request
+		// with a reused or a new goroutine (an adopted task more or less) must not renumber everything after it
+		ownTasks++
+		t.fid = ownTasks
+	}
 	tasks = append(tasks, t)
 	return t
 }
+
+var ownTasks uint64
 
 // current returns the calling goroutine's task, adopting it if it is not yet known (third-party
 // goroutines such as gocron's executor or a fasthttp worker entering repo code).
@@ -723,5 +732,5 @@ func fpID(t *Task) uint64 {
 	if strings.HasPrefix(t.name, "adopted#") {
 		return 1 << 40
 	}
-	return uint64(t.id)
+	return t.fid
 }
